@@ -1,4 +1,4 @@
-//go:build verif
+//go:build verif && !verifpub
 
 package main
 
@@ -68,7 +68,7 @@ func secretFamily(rng *rand.Rand, n int) []secretVal {
 		{bi("0fffffffffffffffffffffffffffffffffffffffffffffffffffffffffffffff"), "f_heavy"},
 		{add(half, 0), "pos_half"}, {add(half, 1), "neg_half"}, {big.NewInt(2), "one"},
 	}
-	for _, s := range steeredScalars(rng, 0)[:30] {
+	for _, s := range steeredScalars(rng, 0) { // edge values, extreme split halves, rounding-bit flips, limb carries in the rounded quotients
 		if s.Sign() != 0 {
 			out = append(out, secretVal{s, "random"})
 		}
@@ -106,7 +106,7 @@ func driveCT(c *ctx) {
 	fixedScalar := scFrom(big.NewInt(0x77665544))
 
 	var sink *secp256k1.Point
-	for _, sv := range secrets {
+	for svIdx, sv := range secrets {
 		d := sv.v
 		s := scFrom(d)
 		// ---- scalar arithmetic on secret scalars
@@ -158,6 +158,21 @@ func driveCT(c *ctx) {
 		var priv *secec.PrivateKey
 		emit("key", "NewPrivateKey", "-", kcls, false, func() { priv, _ = secec.NewPrivateKey(keyBytes) })
 		emit("key", "NewPrivateKeyFromScalar", "-", kcls, false, func() { _, _ = secec.NewPrivateKeyFromScalar(s) })
+		// the SECOND of two consecutive imports: whether the previous import was of the same secret or of another one is itself
+		// a fact about the secrets, so the two situations share one operation label
+		{
+			prev := keyBytes
+			if svIdx%2 == 1 {
+				prev = be32(add(d, 1))[:]
+				if add(d, 1).Cmp(bigN) >= 0 {
+					prev = be32(big.NewInt(5))[:]
+				}
+			}
+			_, _ = secec.NewPrivateKey(prev)
+			emit("key", "NewPrivateKey.second", "-", kcls, false, func() { _, _ = secec.NewPrivateKey(keyBytes) })
+			_, _ = bitcoin.NewSchnorrPrivateKey(prev)
+			emit("schnorr", "NewSchnorrPrivateKey.second", "-", kcls, false, func() { _, _ = bitcoin.NewSchnorrPrivateKey(keyBytes) })
+		}
 		emit("key", "Priv.Bytes+Scalar", "-", kcls, false, func() { _ = priv.Bytes(); _ = priv.Scalar() })
 		emit("ecdh", "ECDH", "peer", kcls, false, func() { _, _ = priv.ECDH(peer) })
 		emit("sign", "SignRaw.hedged", "digest", kcls, false, func() { _, _, _, _ = priv.SignRaw(&fixedReader{append([]byte{}, entropy...)}, digest) })
